@@ -51,6 +51,7 @@ pub fn hex(s: &str) -> String {
 }
 
 pub fn unhex(s: &str) -> String {
+    let s = s.strip_prefix('h').expect("hex text must start with h");
     let bytes: Vec<u8> = (0..s.len() / 2)
         .map(|i| u8::from_str_radix(&s[2 * i..2 * i + 2], 16).expect("hex"))
         .collect();
